@@ -18,7 +18,9 @@ RULE = ('cases = (a) generated well-formed chart with probe contracts (data-only
         'histories over their own alphabets (floors 0-9, waits). Interpreter A (contracts on, cv '
         'all true) and B (ignore_contract=True, cv as drawn) are fed the same history: if A raised '
         'no ContractError the macro steps, configurations, contexts, sent events and meta-events '
-        'must be equal; in B no condition is evaluated and no ContractError is raised. '
+        'must be equal (in a third of the cases a user-defined evaluator records the calls of its '
+        'entry/exit/action hooks, which must be equal too); in B no condition is evaluated and no '
+        'ContractError is raised. '
         'Non-trivial = run with >=5 condition evaluations in A and >=1 transition fired; '
         'distinct = sha1(chart, history).')
 ASSUMPTIONS = ['probe conditions append to the bookkeeping list `log`; entries of kind "c" are '
@@ -66,7 +68,8 @@ def strategy(tier):
         else:
             false = draw(st.lists(st.integers(1, max(1, ncond)), max_size=4, unique=True))
         return {'kind': 'generated', 'spec': spec, 'ops': ops, 'false': false,
-                'twin': draw(st.sampled_from([0, 0, 0, 1, 2, 3]))}
+                'twin': draw(st.sampled_from([0, 0, 0, 1, 2, 3])),
+                'tracing': draw(st.integers(0, 2)) == 0}
 
     @st.composite
     def shipped(draw):
@@ -128,9 +131,30 @@ def meta_recorder(lst):
     return listener
 
 
-def run_generated(spec, ops, cv, ignore):
+def tracing_evaluator(hooks):
+    """PythonEvaluator whose code-execution hooks record that they were called (a user-defined
+    evaluator may do anything there): the calls must not depend on contract checking"""
+    from sismic.code import PythonEvaluator
+
+    class Tracing(PythonEvaluator):
+        def execute_action(self, transition, event=None):
+            hooks.append(('action', transition.source, transition.target))
+            return super().execute_action(transition, event)
+
+        def execute_on_entry(self, state):
+            hooks.append(('entry', state.name))
+            return super().execute_on_entry(state)
+
+        def execute_on_exit(self, state):
+            hooks.append(('exit', state.name))
+            return super().execute_on_exit(state)
+    return Tracing
+
+
+def run_generated(spec, ops, cv, ignore, hooks=None):
     from sismic.exceptions import ContractError
-    d = Drive(spec, ignore_contract=ignore)
+    d = Drive(spec, ignore_contract=ignore,
+              evaluator_klass=tracing_evaluator(hooks) if hooks is not None else None)
     d.ctx['cv'].update(cv)
     meta = []
     d.interp.attach(meta_recorder(meta))
@@ -178,8 +202,13 @@ def oracle_generated(case):
         if c in cv_b:
             cv_b[c] = False
     viol, labels, keys = [], {}, []
-    sigA, metaA, raisedA, nA = run_generated(spec, case['ops'], cv_true, False)
-    sigB, metaB, raisedB, nB = run_generated(spec, case['ops'], cv_b, True)
+    hooksA, hooksB = ([], []) if case.get('tracing') else (None, None)
+    if case.get('tracing'):
+        for t in spec['transitions']:
+            if t['id'] % 3 == 0:
+                t['action'] = None        # transitions without action are processed as well
+    sigA, metaA, raisedA, nA = run_generated(spec, case['ops'], cv_true, False, hooksA)
+    sigB, metaB, raisedB, nB = run_generated(spec, case['ops'], cv_b, True, hooksB)
     labels['generated runs'] = 1
     if nB:
         viol.append({'prop': PROP, 'kind': 'condition-evaluated-while-ignored', 'step': None,
@@ -205,6 +234,14 @@ def oracle_generated(case):
             viol.append({'prop': PROP, 'kind': 'contract-checking-changes-meta-events',
                          'step': None, 'detail': {'index': j, 'with': metaA[j:j + 3],
                                                   'without': metaB[j:j + 3]}})
+    if not viol and hooksA is not None:
+        labels['runs with a user-defined (tracing) evaluator'] = 1
+        if hooksA != hooksB:
+            j = next((j for j, (x, y) in enumerate(zip(hooksA, hooksB)) if x != y),
+                     min(len(hooksA), len(hooksB)))
+            viol.append({'prop': PROP, 'kind': 'contract-checking-changes-evaluator-calls',
+                         'step': None, 'detail': {'index': j, 'with': hooksA[j:j + 3],
+                                                  'without': hooksB[j:j + 3]}})
     fired = sum(1 for s in sigA if s['result'] for m in s['result']['micro'] if m['has_t'])
     if nA >= 5 and fired >= 1:
         keys.append(sha([case['spec'], case['ops']]))
